@@ -341,7 +341,7 @@ def check_text_rewrites(ctx, tree, cls):
                     stubs[hn] = (lambda f_: (lambda it, *a, **k: it.call_function(f_, list(a), dict(k), Env())))(hf)
                 # the compiled text itself stands in for str(<compiler>(...))
                 stubs['str'] = lambda it, x=None, *a: text if isinstance(x, Obj) else str(x)
-                it = Interp(stubs=stubs)
+                it = Interp.for_file(ctx.src, RENDER, {}, stubs)
                 env = Env()
                 for v in used:
                     env.set(v, text)
@@ -419,7 +419,7 @@ def check_negative_operand(ctx, tree, cls):
         node = Obj('UnaryOperation', op='-', args=[Obj('Constant', value=v, alias=None, parentheses=False)], alias=None, parentheses=False)
         stubs = {'sa.literal': lambda it, x: Elem(repr(x)), 'sa.sql.elements.Grouping': lambda it, x: Elem('(' + x.text + ')', True), 'Grouping': lambda it, x: Elem('(' + x.text + ')', True),
                  'self.get_alias': lambda it, a: a, 'sa.literal_column': lambda it, x: Elem(str(x)), 'sa.text': lambda it, x: Elem(str(x))}
-        it = Interp({'UnaryOperation': {'Operation'}, 'Constant': set()}, stubs, methods=methods)
+        it = Interp.for_file(ctx.src, RENDER, {'UnaryOperation': {'Operation'}, 'Constant': set()}, stubs, methods=methods)
         # python operators on the stand-in element
         it.stubs['getattr'] = lambda itp, o, name, *d: (getattr(o, name) if isinstance(o, Elem) else (o.attrs[name] if isinstance(o, Obj) and name in o.attrs else d[0]))
         try:
